@@ -245,7 +245,8 @@ CLAIMED['C08'] = ('other',
 
 # Rules added while working through the seeded changes (DESIGN.md 10.7): appended to the level text of the claim they extend.
 ADDENDA = {
-    'C01': ' Registry reads: a key demanded from the properties of a registry entry must be present in every entry that can reach the read '
+    'C01': ' validate() reads its raw argument once on every path before rebinding it (a second read only as the argument of another validate()/is_valid()): an argument that can be read only once is otherwise gated on one reading and used on another (C01.reuse; not for the generic algorithm modules).'
+           ' Registry reads: a key demanded from the properties of a registry entry must be present in every entry that can reach the read '
            '(entries without any property count unless a truth test of the properties dominates the read). An is_valid() that does not call '
            'validate() at all is reported (a second copy of the rules).',
     'C03': ' For the modules whose validate() and compact() are siblings over a private splitter, every normalisation compact() applies to a part '
@@ -255,7 +256,7 @@ ADDENDA = {
            'looked up on a dispatched sub-module must exist in every candidate.',
     'C05': ' With a fixed length gate, no slice the generator takes of the whole number (nor int() of all of it) may reach into the compared position; a checksum '
            'comparison guarded by `part of the number not in <constant list>` is an exemption list and is reported; a check position compared with '
-           'several generators, or tested for membership in a generated string that is not built from single-character pieces, is reported.',
+           'several generators, or tested for membership in a generated string that is not built from single-character pieces, is reported. A generator documented to take the number without its check digit(s) must not - itself or through the generator it delegates to - cut trailing characters off its argument (C05.documented-payload).',
     'C06': ' Generators are evaluated with checksum() standing for each state and may read the payload only through checksum(); the Damm step '
            'is evaluated per (state, digit) whatever its form; the Luhn sum is read symbolically (generator sums, accumulation loops, helpers); '
            'checksum() must consume the number character by character (no int() of the whole argument); gates and further conjuncts of '
@@ -268,11 +269,11 @@ ADDENDA = {
            'name class must contain [0-9a-zA-Z-_].',
     'C11': ' A constant table against which a consumer tests a prefix of the number (reject / strict subscript / gate of the lookup) must contain '
            'every top-level prefix of the registry it reads; characters at which the line reader splits a line and range endpoints outside '
-           'printable ASCII are reported; the format gates of isil.validate() are evaluated on a witness for every registered agency.',
+           'printable ASCII are reported; the format gates of isil.validate() are evaluated on a witness for every registered agency. numdb decodes every registry stream as UTF-8 explicitly (REG.encoding); the key cz.bankaccount.validate() demands of a bank entry is read from its gate and must be present in every entry.',
     'C12': ' A lookup of a field in a constant (length, low, high) table by string comparison must cut the field to the width of the bounds; '
-           'getter thresholds must be thresholds of validate().',
+           'getter thresholds must be thresholds of validate(). No getter subscripts its raw parameter before rebinding it to the compact / validated form (C12.compact-first: validate() also accepts non-canonical spellings).',
     'C13': ' Module-level defaultdicts that functions subscript (inserting lookups), function-level caches, one-shot module iterators and clock '
-           'reads in default arguments are reported; a memo must not hand out a mutable object it stored.',
+           'reads in default arguments are reported; a memo must not hand out a mutable object it stored. No raise of a module-level exception instance (OWN.shared-exception); no memo keyed on id() of an argument (OWN.memo-identity-key).',
     'C14': ' clean() is interpreted over a small stream domain (helpers followed, generator expressions and joins composed): the result must be '
            'conversion inside the catch-all, one pass through table.get(x, x), deletion last; the table builder may be any one-expression '
            'function that evaluates to the name-list map; module-level digit tables of other modules are checked against the Unicode decimal values; '
@@ -281,10 +282,12 @@ ADDENDA = {
     'C16': ' _max_length() must equal the sum of the component widths of the format; an encoder branch that drops trailing 00 fields may only '
            'serve formats with an optional part; the fixed/variable choice in encode() may depend on the fnc1 flag only; the separator is '
            'never used as a character set (strip family); compact() deletes only the parentheses and clean() leaves the 82 GS1 value characters alone.',
-    'C17': ' Paths of validate() that return without any check are limited to two documented modules.',
+    'C17': ' Paths of validate() that return without any check are limited to two documented modules. Prefixes that compact()/validate() '
+           'recognise and cut off before the check (startswith / slice comparison / membership, then number[k:]) must be pairwise more than one '
+           'substitution apart when they have the same length (C17.discard).',
     'C18': ' Availability: the C01 obligations and the result kind / attribute totality of every format() the page calls are re-decided; '
            'util.get_number_modules() must yield every module that has validate(); the scan of the formats is guarded only by the presence of '
-           'the parameter; the two responses are read path by path.',
+           'the parameter; the two responses are read path by path. The functions get_conversions() selects return no bytes / set / complex value, which json.dumps() of the AJAX answer would refuse (C18.json-kind).',
 }
 for _pid, _txt in ADDENDA.items():
     _c = CLAIMED[_pid]
